@@ -287,6 +287,18 @@ def run(ctx):
     part.merge(core.fan_out(ctx, _reuse_chunk, core.split(short_lists(), 32)))
     for clause, msg, _l in check_raising():
         part.violation(clause, msg, {"kind": "raising"})
+    # long enumerations: every descriptor in turn preceded by 30 foreign ports and followed by
+    # the remaining descriptors (position arithmetic, truncated scans)
+    foreign = [k for k, d in enumerate(DESCRIPTORS) if not is_ebb(d)]
+    for k in range(len(DESCRIPTORS)):
+        combo = tuple(foreign[i % len(foreign)] for i in range(30)) + (k,) + \
+            tuple(j for j in range(len(DESCRIPTORS)) if j != k)
+        bad, calls = check_list([DESCRIPTORS[i] for i in combo])
+        part.count("lists")
+        part.count("long_lists")
+        part.count("calls", calls)
+        for clause, msg, lookup in bad:
+            part.violation(f"{clause}:long{k}:{lookup}", msg, {"kind": "ports", "combo": list(combo)})
     # seed: one extra list with a rotated descriptor order, length 5
     rot = ctx.seed % len(DESCRIPTORS)
     combo = tuple((rot + 3 * k) % len(DESCRIPTORS) for k in range(5))
@@ -306,7 +318,8 @@ def run(ctx):
                 "unnamed EBB, Windows SER=/SNR= styles, VID:PID-only, foreign devices, a name "
                 "that prefixes another, names and tags containing a blank) x every lookup derived from the list (reported names, "
                 "serial tags, port names; original/upper/lower case), both layers; all ordered pairs "
-                "of lists of length 0..2 discovered one after the other by the same EBB3 object; "
+                "of lists of length 0..2 discovered one after the other by the same EBB3 object; 16 "
+                "enumerations of 46 ports; "
                 "non-trivial = "
                 "lists of >= 2 ports containing a board",
         "samples": core.rotate(part.samples, ctx.seed, 4),
